@@ -81,6 +81,8 @@ type gvar struct {
 	t    *ty
 	sval string // known string value (environment strings that name a field of another variable)
 	hasS bool
+	loop bool // bound by a for-expression / %{for} directive (not by the environment or a function signature)
+	unk  bool // environment variable whose value is unknown or contains an unknown value
 }
 
 type gfunc struct {
@@ -126,6 +128,9 @@ func pickS(g *G, xs []string, l string) string {
 
 var varNames = []string{"a", "b", "c", "x", "y", "z", "foo", "bar", "v1", "my_var", "my-var", "n", "list", "obj", "T", "été", "k", "f0", "can"}
 var loopNames = []string{"i", "k", "v", "x", "item", "each", "e-1"}
+
+// sharedNames: drawn for environment variables AND for iteration variables
+var sharedNames = []string{"x", "k", "v", "i"}
 var attrNames = []string{"a", "b", "c", "id", "name", "k-1", "x"}
 var dictKeys = []string{"a", "b", "k1", "k2", "zeta", "B", "10", "9", "true", "null", "if", "for", "2.5"}
 var strPool = []string{"", "a", "foo", "bar", "hello world", "12", "-3", "0.5", "2.25", "true", "false", "é", "日本", "x y", "A", "abc", "1e2", "0"}
@@ -399,11 +404,37 @@ func (g *G) GenEnv() []Var {
 	var out []Var
 	for i := 0; i < n; i++ {
 		nm := pickS(g, varNames, "vname")
+		if g.pct(30, "vnameshared") {
+			// the small pool the iteration variables are drawn from as well, so that loops
+			// shadow environment variables (scope.go; labels scope:*)
+			nm = pickS(g, sharedNames, "vnameloop")
+		}
 		if used[nm] {
 			continue
 		}
 		used[nm] = true
-		switch g.w("varclass", 8, 6, 2, 2) {
+		switch g.w("varclass", 8, 6, 2, 3, 2) {
+		case 4:
+			// a known collection / object that CONTAINS an unknown value somewhere
+			var t *ty
+			if g.bool("cunkcoll") {
+				t = g.collType()
+			} else {
+				t = g.randType(2)
+			}
+			var v Val
+			if g.bool("cunkrender") {
+				v = g.collVal(t)
+			} else {
+				v = g.randVal(t)
+			}
+			if !g.pokeUnknownIn(&v, t, false) {
+				// nothing to put the unknown into (primitive, empty collection, set): a pair
+				v = Val{T: "tuple", Elems: []Val{v, {T: "unknownof", Ty: anyTy(t)}}}
+				t = seqOf(t, 2)
+			}
+			out = append(out, Var{Name: nm, V: v})
+			g.scope = append(g.scope, gvar{name: nm, t: t, unk: true})
 		case 1:
 			// cty LIST / MAP / SET values (of primitives, of objects, nested, possibly empty)
 			t := g.collType()
@@ -439,7 +470,7 @@ func (g *G) GenEnv() []Var {
 			}
 			t.keys = nil
 			out = append(out, Var{Name: nm, V: Val{T: "unknownof", Ty: d}})
-			g.scope = append(g.scope, gvar{name: nm, t: t})
+			g.scope = append(g.scope, gvar{name: nm, t: t, unk: true})
 		default:
 			t := g.randType(2)
 			out = append(out, Var{Name: nm, V: g.randVal(t)})
@@ -898,6 +929,12 @@ func (g *G) Expr(w *ty, d int) *Node {
 		}
 	case 6:
 		return g.leaf(w)
+	case 7:
+		// inside a loop: a constructor that uses the loop's variable before and after an
+		// inner loop which re-binds the same name (gen_scope.go)
+		if n := g.rebindSandwich(w, d); n != nil {
+			return n
+		}
 	}
 	switch w.k {
 	case tNum:
@@ -1135,19 +1172,73 @@ func (g *G) iterSource(d int) (*Node, *ty, *ty) {
 }
 
 func (g *G) loopVars(kt, vt *ty) (string, string, func()) {
-	val := pickS(g, loopNames, "valvar")
+	return g.loopVarsForced(kt, vt, "")
+}
+
+// loopName draws the name of an iteration variable: a fresh-looking one from the pool, the
+// name of a visible environment variable / function parameter (the loop SHADOWS it), or the
+// name an enclosing loop binds (the loop RE-BINDS it).
+func (g *G) loopName(l string) string {
+	var outer, outerUnk, loops []string
+	seen := map[string]bool{}
+	for i := len(g.scope) - 1; i >= 0; i-- {
+		v := g.scope[i]
+		if seen[v.name] {
+			continue
+		}
+		seen[v.name] = true
+		if v.loop {
+			loops = append(loops, v.name)
+		} else {
+			outer = append(outer, v.name)
+			if v.unk {
+				outerUnk = append(outerUnk, v.name)
+			}
+		}
+	}
+	switch g.w(l+"src", 9, 6, 4) {
+	case 1:
+		// (half of the time one whose value is unknown, when there is one: such a value must not matter)
+		if len(outerUnk) > 0 && g.bool(l+"unk") {
+			return outerUnk[g.int(0, len(outerUnk)-1, l+"outerunk")]
+		}
+		if len(outer) > 0 {
+			return outer[g.int(0, len(outer)-1, l+"outer")]
+		}
+	case 2:
+		if len(loops) > 0 {
+			return loops[g.int(0, len(loops)-1, l+"loop")]
+		}
+	}
+	return pickS(g, loopNames, l)
+}
+
+// loopVarsForced: force != "" makes one of the two iteration variables carry that name.
+func (g *G) loopVarsForced(kt, vt *ty, force string) (string, string, func()) {
+	val := g.loopName("valvar")
 	key := ""
 	if g.pct(55, "haskey") {
-		key = pickS(g, loopNames, "keyvar")
-		if key == val {
-			key = "idx"
+		key = g.loopName("keyvar")
+	}
+	if force != "" {
+		if key != "" && g.pct(30, "forcekey") {
+			key = force
+		} else {
+			val = force
+		}
+	}
+	if key == val {
+		// two different names are needed; the value variable keeps its (possibly forced) name
+		key = "idx"
+		if val == "idx" {
+			key = "k"
 		}
 	}
 	mark := len(g.scope)
 	if key != "" {
-		g.scope = append(g.scope, gvar{name: key, t: kt})
+		g.scope = append(g.scope, gvar{name: key, t: kt, loop: true})
 	}
-	g.scope = append(g.scope, gvar{name: val, t: vt})
+	g.scope = append(g.scope, gvar{name: val, t: vt, loop: true})
 	return key, val, func() { g.scope = g.scope[:mark] }
 }
 
